@@ -30,6 +30,45 @@ def reservation_before(I, res, uc):
     return best
 
 
+def reserved_on_every_alternative(I, res, uc):
+    """The slot the initialiser's result is written to is, on every alternative, the success payload of a reservation call
+    made before the initialiser ran, and that alternative carries the call's Some / Ok fact (or the call cannot fail):
+    `fast(l).or_else(|| slow(l)).unwrap_or_else(oom)`, `if let Some(p) = fast(l) { p } else { slow(l).ok_or(E)? }`."""
+    idx = res.events.index(uc)
+    resv = []
+    for e in res.events[:idx]:
+        if e.kind == 'call' and e.callee and e.ret is not None:
+            b = I.bodies.get(e.callee) or I.db.by_path.get(e.callee)
+            out = ((b or {}).get('meta', {}).get('output') or '')
+            if 'NonNull<u8>' in out:
+                resv.append((e, out))
+    ws = [e for e in res.events[idx:] if e.kind == 'call' and e.callee == 'core::ptr::write' and (e.args[1] == uc.ret or (uc.ret is None and e.args[1][0] == 'call' and e.args[1][1] == '<callable>'))]
+    if len(ws) != 1 or not resv:
+        return None
+    D = ws[0].args[0]
+    # success alternatives of every reservation: (pointer, the facts under which the call returns it)
+    succ = []
+    for e, out in resv:
+        if out.startswith('std::ptr::NonNull') or out.startswith('core::ptr::NonNull'):
+            succ.extend((x, frozenset(fx), e) for x, fx in arena.alternatives(I, e.ret, set()))
+            continue
+        for t2, f2 in arena.alternatives(I, e.ret, set()):
+            if t2[0] == 'agg' and t2[1] in ('Option', 'Result') and t2[2] in ('Some', 'Ok'):
+                succ.extend((x, frozenset(fx), e) for x, fx in arena.alternatives(I, field_of(t2, '0'), f2))
+    used = set()
+    for x, fs in arena.alternatives(I, D, set(uc.state.facts)):
+        hit = None
+        for y, fy, e in succ:
+            # the same pointer, reached under (at least) the facts of that success path of the reservation
+            if y == x and fy <= fs:
+                hit = e
+                break
+        if hit is None:
+            return None
+        used.add(arena.short(hit.callee))
+    return sorted(used)
+
+
 def run(ctx, config='rel-all'):
     A = arena.analyse(ctx, config)
     db = ctx.db(config)
@@ -68,8 +107,11 @@ def run(ctx, config='rel-all'):
                 continue
             R = e.ret
             good = any(f[0] == 'is' and f[2] in ('Continue', 'Ok') and (R == f[1] or R in subterms(f[1])) for f in uc.state.facts)
+            alt = None if good else reserved_on_every_alternative(I, res, uc)
             if good:
                 ctx.ok('R1', '%s via %s: callback dominated by the Ok edge of %s' % (fn, key, arena.short(e.callee)), 'must-fact is(reservation, Ok)')
+            elif alt:
+                ctx.ok('R1', '%s via %s: the slot the callback fills is on every alternative the success payload of %s' % (fn, key, ' / '.join(alt)), 'per-alternative fact is(reservation, Some|Ok)')
             else:
                 ctx.violation('R1', fn, 'callback:unguarded', 'the initialiser may run although %s failed to reserve space' % arena.short(e.callee), uc.span)
     ctx.floor('R1', n1, 3, 'initialiser call sites')
@@ -93,10 +135,16 @@ def run(ctx, config='rel-all'):
         else:
             ctx.violation('R2', fn, 'error-move-count', 'expected exactly one ptr::read of the error slot in %s, found %d (0 = error dropped in the arena, 2 = duplicated)' % (key, len(reads)), body.get('span'))
         stores = [e for e in own if e.kind == 'store' and arena.footer_field(e) and arena.footer_field(e)[1] == 'ptr']
+        # the Err arm may live in a helper (shared by the two entry points): every finger store that happens after the
+        # initialiser ran belongs to it, whatever frame it sits in
+        ucs_ = [e for e in res.events if e.kind == 'usercall']
+        if ucs_:
+            after = res.events[res.events.index(ucs_[-1]):]
+            stores = stores + [e for e in after if e not in stores and e.kind == 'store' and arena.footer_field(e) and arena.footer_field(e)[1] == 'ptr']
         ords = c01.ordinal_keys([e for e in res.events if e.kind == 'store'])
         classes = []
         for e in stores:
-            o = ords.get((fn, e.block, e.span), 0)
+            o = ords.get((arena.short(arena.innermost(e)), e.block, e.span), 0)
             cls = arena.classify_finger_store(I, res, e)
             classes.append(cls)
             c01.check_finger_store(ctx, key, I, res, e, fn, o, '%s [%s]' % (loc(e.span), arena.stack_str(e)), set(), rules={'R1': 'R3', 'O2': 'R3', 'R3': 'R4'})
